@@ -4,6 +4,7 @@ import (
 	"sort"
 	"testing"
 	"testing/synctest"
+	"time"
 )
 
 func sortStrings(s []string) { sort.Strings(s) }
@@ -25,3 +26,11 @@ func runBubble(f func()) {
 // budget is per bubble (a busy loop lives inside one bubble), so that long
 // multi-schedule runs on a loaded machine do not trip it.
 var wdReset func()
+
+// cancelOffset is added to every timed cancellation. Latencies are whole
+// milliseconds and client timeouts end on half milliseconds (which moves the
+// later exchanges of that goroutine onto the half-millisecond lattice), so a
+// cancellation on a quarter millisecond can never tie with an exchange
+// completion or a timeout. A tie would be resolved by the Go scheduler, i.e.
+// outside the simulator's control.
+const cancelOffset = 250 * time.Microsecond
